@@ -39,7 +39,7 @@ def parseItems (s : String) : Option (List (Key × Stored ByteArray ByteArray)) 
   (optList s ";").mapM (fun item =>
     match item.splitOn ":" with
     | [k, "i", v] => do let k ← keyOfHex k; let v ← bytesOfHex v; pure (k, Stored.inline v)
-    | [k, "o", v] => do let k ← keyOfHex k; let v ← bytesOfHex v; pure (k, Stored.overflow v)
+    | [k, "o", v] => do let k ← keyOfHex k; let v ← bytesOfHex v; pure (k, Stored.overflow v ByteArray.empty)
     | _ => none)
 
 /-- the parts, as far as the `open` lines need them: the tree is the item list the line carries, the WAL is empty (a
